@@ -316,6 +316,8 @@ class Defs:
                 self._tgt(n.target, n.value, n)
             elif isinstance(n, ast.For):
                 self._tgt(n.target, None, n)
+            elif isinstance(n, ast.NamedExpr):
+                self._tgt(n.target, n.value, n)
             elif isinstance(n, ast.With):
                 for it in n.items:
                     if it.optional_vars is not None:
